@@ -178,11 +178,34 @@ func VpHStreamWriter() {
 		return valuePointer{Fid: uint32(ver >> 32), Len: 100 + uint32(ikey[0]), Offset: uint32(ver)}
 	}
 	vlogWrites := 0
+	// The value threshold is dynamic (VLogPercentile): every call of DB.valueThreshold may return
+	// another value. valueLog.write decides inline-vs-pointer with the threshold it pins on the
+	// entry (the real skipVlogAndSetThreshold) and hands out a zero pointer for an inline value;
+	// whoever places the entry into the table later has to come to the same decision.
+	dynThr := vpParam("sw.dynthr", 1) == 1
+	if dynThr {
+		vpStub("(*badger.DB).valueThreshold", func(db *DB) int64 {
+			t := vpU64("env.thr")
+			vpAssume(vpAnd(t >= 1, t <= 1<<20))
+			return int64(t)
+		})
+	}
+	type vpwPlaced struct {
+		key    []byte
+		inline bool
+	}
+	var placed []vpwPlaced
 	vpStub("(*badger.valueLog).write", func(v *valueLog, reqs []*request) error {
 		vlogWrites++
 		for _, r := range reqs {
 			for _, e := range r.Entries {
-				r.Ptrs = append(r.Ptrs, ptrOf(e.Key))
+				skip := e.skipVlogAndSetThreshold(db.valueThreshold())
+				placed = append(placed, vpwPlaced{key: append([]byte(nil), e.Key...), inline: skip})
+				if skip {
+					r.Ptrs = append(r.Ptrs, valuePointer{})
+				} else {
+					r.Ptrs = append(r.Ptrs, ptrOf(e.Key))
+				}
 			}
 		}
 		return nil
@@ -413,7 +436,11 @@ func VpHStreamWriter() {
 		for i := 0; i < len(mine) && i < len(streams[s]); i++ {
 			a, e := mine[i], streams[s][i]
 			c := vpAnd(bytes.Equal(a.key, y.KeyWithTs(e.ukey, e.ver)), vpAnd(a.vs.UserMeta == e.umeta, a.vs.ExpiresAt == e.exp))
-			inline := uint64(len(e.val)) < thr
+			// the decision valueLog.write took for this entry
+			inline := false
+			for _, pl := range placed {
+				inline = vpOr(inline, vpAnd(bytes.Equal(pl.key, y.KeyWithTs(e.ukey, e.ver)), pl.inline))
+			}
 			p := ptrOf(y.KeyWithTs(e.ukey, e.ver)) // the pointer valueLog.write handed out for this entry
 			asInline := vpAnd(vpAnd(a.vs.Meta == e.meta, bytes.Equal(a.vs.Value, e.val)), vpAnd(len(a.vs.Value) == len(e.val), a.vlen == 0))
 			asPtr := vpAnd(vpAnd(a.vs.Meta == e.meta|bitValuePointer, bytes.Equal(a.vs.Value, p.Encode())), vpAnd(len(a.vs.Value) == int(vptrSize), a.vlen == p.Len))
